@@ -113,7 +113,7 @@ pub fn gen(seed: u64, prop: &str) -> TCase {
                 };
                 TOp::Swap { who: if rng.chance(2, 3) { 1 } else { rng.below(6) as u8 }, exact_in, route, denom, amount: *rng.pick(&[0u128, 1, 1000, 123456789, u128::MAX]), limit: *rng.pick(&[0u128, 1, 999, u128::MAX]) }
             }
-            5 | 6 => TOp::Spend { who: if rng.chance(2, 3) { 0 } else { rng.below(6) as u8 }, denom: rng.below(5) as u8, amount: *rng.pick(&[1u128, 1000, 5_000_000]), receiver: rng.below(14) as u8, channel: if rng.chance(1, 2) { Some(rng.below(3) as u8) } else { None } },
+            5 | 6 => TOp::Spend { who: if rng.chance(2, 3) { 0 } else { rng.below(6) as u8 }, denom: rng.below(5) as u8, amount: *rng.pick(&[1u128, 1000, 5_000_000]), receiver: rng.below(14) as u8, channel: if rng.chance(1, 2) { Some(rng.below(4) as u8) } else { None } },
             7 => {
                 // sometimes the admin re-submits the list unchanged (e.g. while rotating the trader)
                 let new_routes = match rng.below(6) {
@@ -300,7 +300,7 @@ pub fn eval(c: &TCase) -> Eval {
                 let rcv = receivers[*receiver as usize % receivers.len()].clone();
                 let d = if dn(*denom).is_empty() { "uosmo" } else { dn(*denom) };
                 w.st.bank.mint(&t, d, *amount);
-                let ch = channel.map(|c| format!("channel-{}", c));
+                let ch = channel.map(|c| if c >= 3 { String::new() } else { format!("channel-{}", c) });
                 let msg = json!({"spend_funds": {"amount": {"denom": d, "amount": amount.to_string()}, "receiver": rcv, "channel_id": ch}});
                 let res = w.tx_execute(&t, &sender, &[], &msg.to_string());
                 ev.stats.txs += 1;
